@@ -346,7 +346,8 @@ fn run_lib(which: Which, ctx: &Ctx, stats: &Stats, samples: &mut Vec<Value>, bou
 
     // odd (non-CLI) block sizes on bases around and above the 64 KiB parallel-signature switch
     let odd_bs: Vec<usize> = if thorough { vec![1, 3, 7, 100, 1000, 1023, 1025, 4097, 30000, 65535, 65537, 100000] } else { vec![3, 1000, 4097, 65537, 100000] };
-    let odd_len: Vec<usize> = if thorough { vec![65535, 65536, 65537, 70001, 131072, 200000] } else { vec![65536, 65537, 200000] };
+    // (lengths above 1 MiB and 2 MiB: the parallel signature path splits the basis into per-task spans there)
+    let odd_len: Vec<usize> = if thorough { vec![65535, 65536, 65537, 70001, 131072, 200000, (1 << 20) + 1, (2 << 20) + 4097, 3 << 20, (4 << 20) + 123] } else { vec![65536, 65537, 200000, (1 << 20) + 1, (2 << 20) + 4097] };
     let mut ojobs = Vec::new();
     for &bs in &odd_bs {
         for &l in &odd_len {
